@@ -27,7 +27,7 @@ func vHash(b []byte) string {
 }
 
 func vTempDir(t testing.TB) string {
-	d, err := os.MkdirTemp("", "verif-disk-")
+	d, err := os.MkdirTemp(vTempBase(), "verif-disk-")
 	if err != nil {
 		t.Fatal(err)
 	}
